@@ -50,12 +50,26 @@ type schedReader struct {
 	failErr error
 	off     int
 	reads   int
+	// recovers: the failure is reported ONCE; a parser that (wrongly) reads again gets the rest of the data
+	recovers bool
+	failed   bool
+	// readsAfterFail counts Read calls made after the failure was reported (must stay 0)
+	readsAfterFail int
 }
 
 func (r *schedReader) Read(p []byte) (int, error) {
 	r.reads++
+	if r.failed {
+		r.readsAfterFail++
+	}
 	if r.failAt >= 0 && r.off >= r.failAt {
-		return 0, r.failErr
+		if !r.recovers || !r.failed {
+			r.failed = true
+			if r.recovers {
+				r.failAt = -1
+			}
+			return 0, r.failErr
+		}
 	}
 	n := len(p)
 	if len(r.sched) > 0 {
@@ -75,6 +89,10 @@ func (r *schedReader) Read(p []byte) (int, error) {
 	copy(p, r.data[r.off:r.off+n])
 	r.off += n
 	if r.failAt >= 0 && r.off >= r.failAt && n > 0 && r.eofWith {
+		r.failed = true
+		if r.recovers {
+			r.failAt = -1
+		}
 		return n, r.failErr
 	}
 	if r.off >= len(r.data) && (r.failAt < 0 || r.failAt > len(r.data)) {
@@ -209,7 +227,7 @@ var allCfgs = func() []renderCfg {
 	var out []renderCfg
 	for _, s := range []cm.SoftBreakBehavior{cm.SoftBreakPreserve, cm.SoftBreakSpace, cm.SoftBreakHarden} {
 		for _, ig := range []bool{false, true} {
-			for _, f := range []string{"", "gfm", "all", "none", "set:script,b,p,em"} {
+			for _, f := range []string{"", "gfm", "all", "none", "set:script,b,p,em", "set:/em,strong,/p,li,/a,/code,br"} {
 				out = append(out, renderCfg{s, ig, f})
 			}
 		}
